@@ -1,11 +1,58 @@
 import Mp4ff.Model.Segments
+import Mp4ff.Lemmas.C12
 /-!
 # C12 — fragments are grouped into segments faithfully and indexes tile the media
-(Property theorems are added from `Mp4ff/Lemmas/C12.lean` when completed.)
+Property theorems about `Model/Segments.lean` (`File.AddChild`'s grouping of top-level boxes and the sidx reference
+arithmetic); proofs in `Mp4ff/Lemmas/C12.lean`.  The model is tied to mp4/file.go by the `group` correspondence op
+(every generated fragmented file is grouped by both and the segment/fragment structure compared).
 -/
 namespace Mp4ff.Segments.C12
+open Mp4ff.Segments
 
 /-- the first reference starts at the anchor point -/
 theorem refStart_zero (sizes : List Nat) : refStart sizes 0 = 0 := by simp [refStart]
+
+/-- **every moof ends up in exactly one fragment of exactly one segment, in file order** — for every stream of
+    top-level boxes, every delimiter configuration (sidx list, tfra offsets, start-on-moof flag), every start state -/
+theorem group_preserves_moofs (sidxOf : Item → Option Sidx) (items : List Item) (st st' : St)
+    (h : groupItems st sidxOf items = some st') :
+    moofsOf st' = moofsOf st ++ (items.filter (·.kind == .moof)).map (·.pos) :=
+  Segments.group_preserves_moofs sidxOf items st st' h
+
+/-- media boxes never change the delimiter configuration; segments are only ever appended -/
+theorem group_segments_grow (sidxOf : Item → Option Sidx) (items : List Item) (st st' : St)
+    (h : groupItems st sidxOf items = some st') :
+    st.segs.length ≤ st'.segs.length ∧ st'.tfra = st.tfra ∧ st'.startOnMoof = st.startOnMoof :=
+  Segments.group_segments_grow sidxOf items st st' h
+
+/-- **styp delimits**: every styp box opens a new segment that starts at the styp's position -/
+theorem styp_opens_segment (st : St) (it : Item) (sidxOf : Item → Option Sidx) (hk : it.kind = .styp) :
+    ∃ st', addChild st it sidxOf = some st' ∧ st'.segs = st.segs ++ [{ startPos := it.pos, hasStyp := true }] :=
+  Segments.styp_opens_segment st it sidxOf hk
+
+/-- **default mode** (no sidx, no tfra, flag off): a moof opens a segment only when none exists yet -/
+theorem default_mode_single_segment (st : St) (it : Item) (sidxOf : Item → Option Sidx) (hk : it.kind = .moof)
+    (hs : st.sidxs = []) (ht : st.tfra = none) (hf : st.startOnMoof = false) (hne : st.segs ≠ []) (st' : St)
+    (h : addChild st it sidxOf = some st') : st'.segs.length = st.segs.length :=
+  Segments.default_mode_single_segment st it sidxOf hk hs ht hf hne st' h
+
+/-- **start-on-moof** (no sidx, no tfra): a moof that does not complete a fragment opened by an emsg opens a segment -/
+theorem startOnMoof_opens (st : St) (it : Item) (sidxOf : Item → Option Sidx) (hk : it.kind = .moof)
+    (hs : st.sidxs = []) (ht : st.tfra = none) (hf : st.startOnMoof = true)
+    (hopen : ∀ s ∈ st.segs.getLast?, ∀ f ∈ s.frags.getLast?, f.moof.isSome) (st' : St)
+    (h : addChild st it sidxOf = some st') : st'.segs.length = st.segs.length + 1 :=
+  Segments.startOnMoof_opens st it sidxOf hk hs ht hf hopen st' h
+
+/-- **the index tiles the media**: when the segments are contiguous, reference `i` (offset = sum of the earlier
+    referenced sizes from the anchor) starts at the first byte of segment `i`, and the references end where the last
+    segment ends -/
+theorem sidx_tiles (starts sizes : List Nat) (hl : starts.length = sizes.length)
+    (hc : ∀ i, i + 1 < starts.length → starts.getD (i + 1) 0 = starts.getD i 0 + sizes.getD i 0) :
+    (∀ i, i < starts.length → starts.getD 0 0 + refStart sizes i = starts.getD i 0) ∧
+    (starts ≠ [] → starts.getD 0 0 + sizes.sum = starts.getD (starts.length - 1) 0 + sizes.getD (sizes.length - 1) 0) :=
+  Segments.sidx_tiles starts sizes hl hc
+
+/-- non-vacuity: three contiguous segments of sizes 10, 20, 30 starting at byte 100 -/
+example : ([100, 110, 130] : List Nat).getD 0 0 + refStart [10, 20, 30] 2 = 130 := by decide
 
 end Mp4ff.Segments.C12
